@@ -1123,12 +1123,15 @@ fn eval_node(t: &Tree, le: &[LeafEval], v: &View, alt: u8, _root: bool) -> Optio
 const ROLES: usize = 3; // must, should, must_not
 
 fn msm_options(n_should: usize) -> Vec<Option<usize>> {
+  // {none, 0, 1, 2, #should}; 2 is also used with a single should clause (count >= 2 is then
+  // unsatisfiable: the rule "should needs minimum_should_match matches" is plain arithmetic)
   let mut v = vec![None];
   if n_should >= 1 {
     v.push(Some(0));
     v.push(Some(1));
+    v.push(Some(2));
   }
-  if n_should >= 2 {
+  if n_should >= 3 {
     v.push(Some(n_should));
   }
   v
@@ -1218,14 +1221,20 @@ fn chain_wrappers(t: &Tree) -> Vec<Tree> {
 }
 
 /// Slice A: every leaf of the full alphabet alone and under each unary wrapper.
-fn trees_slice_a(leaves: &[Leaf], kw: bool) -> Vec<Tree> {
+fn trees_slice_a(leaves: &[Leaf], kw: bool, quick: bool) -> Vec<Tree> {
   let nleaves = leaves.len();
   let mut out: Vec<Tree> = (0..nleaves).map(Tree::L).collect();
   for i in 0..nleaves {
     if matches!(leaves[i], Leaf::Qs { legacy: true, .. }) {
       continue; // a bare string is only accepted as the root query
     }
-    out.extend(unary_wrappers(&Tree::L(i)));
+    if quick {
+      // quick: function_score(min_score below the score), script_score, should, must_not
+      let w = unary_wrappers(&Tree::L(i));
+      out.extend([1usize, 3, 5, 6].iter().map(|k| w[*k].clone()));
+    } else {
+      out.extend(unary_wrappers(&Tree::L(i)));
+    }
     if kw {
       out.push(Tree::Bool { must: vec![Tree::L(i)], should: vec![], must_not: vec![], filter: Some((s("kw"), s("x"))), msm: None });
       out.push(Tree::Bool { must: vec![], should: vec![Tree::L(i)], must_not: vec![], filter: Some((s("kw"), s("y"))), msm: None });
@@ -1284,7 +1293,7 @@ fn trees_slice_b(core: &[usize], kw: bool, quick: bool) -> (Vec<Tree>, String) {
     out.extend(unary_wrappers(c));
   }
   let mut desc = format!(
-    "core leaves {} ; bool with <=3 leaf children (multiset of role x leaf) x filter {} x minimum_should_match {{none,0,1,#should}}, dis_max with <=3 leaf children, 4 unary scoring wrappers over leaves, single-child chains (must/should/must_not/function_score min_score>score) to depth {}, 8 unary wrappers over every 2-leaf compound, function_score(leaf, min_score below/above the score) beside a leaf in every pair of clause roles and in dis_max",
+    "core leaves {} ; bool with <=3 leaf children (multiset of role x leaf) x filter {} x minimum_should_match {{none,0,1,2,#should}}, dis_max with <=3 leaf children, 4 unary scoring wrappers over leaves, single-child chains (must/should/must_not/function_score min_score>score) to depth {}, 8 unary wrappers over every 2-leaf compound, function_score(leaf, min_score below/above the score) beside a leaf in every pair of clause roles and in dis_max",
     core.len(),
     filters.len(),
     chain_depth
@@ -1317,6 +1326,44 @@ fn trees_slice_b(core: &[usize], kw: bool, quick: bool) -> (Vec<Tree>, String) {
     desc.push_str(" ; 3-leaf depth-2 trees (bool / dis_max holding one 2-leaf compound and one leaf) ; flat 4-leaf bool / dis_max over the first 4 core leaves");
   }
   (out, desc)
+}
+
+/// Slice N (nested compounds under a counting parent): every parent bool that holds ONE 2-leaf
+/// compound child (bool-should with minimum_should_match none / 1 / 2, bool-must, dis_max, over
+/// every unordered pair of core leaves) in each of the roles must / should / must_not, together with
+/// a multiset of `min_leaf_children..=max_leaf_children` (role x leaf) children, x every
+/// minimum_should_match in {none, 0, 1, 2, #should}.
+fn trees_slice_n(atoms: &[usize], min_leaf_children: usize, max_leaf_children: usize) -> Vec<Tree> {
+  let mut compounds: Vec<Tree> = Vec::new();
+  for (x, i) in atoms.iter().enumerate() {
+    for j in atoms.iter().skip(x) {
+      let pair = vec![Tree::L(*i), Tree::L(*j)];
+      for m in [None, Some(1), Some(2)] {
+        compounds.push(Tree::Bool { must: vec![], should: pair.clone(), must_not: vec![], filter: None, msm: m });
+      }
+      compounds.push(Tree::Bool { must: pair.clone(), should: vec![], must_not: vec![], filter: None, msm: None });
+      compounds.push(Tree::DisMax(pair.clone()));
+    }
+  }
+  let combos = ROLES * atoms.len();
+  let mut out = Vec::new();
+  for k in min_leaf_children..=max_leaf_children {
+    for ms in multisets(combos, k) {
+      for c in &compounds {
+        for rc in 0..ROLES {
+          let mut parts: [Vec<Tree>; 3] = [vec![], vec![], vec![]];
+          parts[rc].push(c.clone());
+          for x in &ms {
+            parts[x / atoms.len()].push(Tree::L(atoms[x % atoms.len()]));
+          }
+          for m in msm_options(parts[1].len()) {
+            out.push(Tree::Bool { must: parts[0].clone(), should: parts[1].clone(), must_not: parts[2].clone(), filter: None, msm: m });
+          }
+        }
+      }
+    }
+  }
+  out
 }
 
 /// Slice C: trees sent together with a fuzzy option.
@@ -1797,8 +1844,16 @@ pub fn run(ctx: &Ctx) -> i32 {
     let (leaves, core) = &alphabets[si];
     // slice A
     let a_docs = if quick { 2 } else { 3 };
-    let ta = trees_slice_a(leaves, sp.kw);
-    let mut wa = gen_worlds(sp, &sp.docs_full, 2);
+    let ta = trees_slice_a(leaves, sp.kw, quick);
+    // quick: 2-document corpora over the first 9 shapes
+    let mut wa = if quick {
+      let nine: Vec<Value> = sp.docs_full.iter().take(9).cloned().collect();
+      let mut w = gen_worlds(sp, &sp.docs_full, 1);
+      w.extend(gen_worlds(sp, &nine, 2).into_iter().filter(|w| w.docs.len() == 2));
+      w
+    } else {
+      gen_worlds(sp, &sp.docs_full, 2)
+    };
     if !quick {
       // 3-document corpora over the first 8 shapes
       let eight: Vec<Value> = sp.docs_full.iter().take(8).cloned().collect();
@@ -1808,10 +1863,12 @@ pub fn run(ctx: &Ctx) -> i32 {
       println!("  setup {} slice A generated at {:.1}s", sp.name, rep.elapsed_s());
     }
     bounds.push(json!({"slice": "A-leaf-semantics", "schema": sp.name, "doc_shapes": sp.docs_full.len(), "max_docs": a_docs, "doc_shapes_for_3_doc_corpora": 8, "worlds": wa.len(), "leaves": leaves.len(), "trees": ta.len()}));
-    slices.push(Slice { name: "A", ord: 2, spec: si, trees: prepare(ta, leaves, None), worlds: wa, obligations: true });
+    slices.push(Slice { name: "A", ord: 3, spec: si, trees: prepare(ta, leaves, None), worlds: wa, obligations: true });
     // slice B
+    // quick: S0 gets corpora of <= 2 documents over 4 shapes + 3-document corpora over 3 shapes,
+    // S3 <= 2 documents over 3 shapes, the analyzer variants <= 2 documents over 2 shapes
     let (b_shapes, b_docs): (Vec<Value>, usize) = if quick {
-      (sp.docs_core.iter().take(4).cloned().collect(), if si == 0 { 3 } else { 2 })
+      (sp.docs_core.iter().take(if si == 0 { 4 } else if sp.kw { 3 } else { 2 }).cloned().collect(), 2)
     } else {
       (sp.docs_core.clone(), 3)
     };
@@ -1823,22 +1880,43 @@ pub fn run(ctx: &Ctx) -> i32 {
     if std::env::var("VERIF_C07_TIMING").is_ok() {
       println!("  setup {} trees/worlds generated at {:.1}s", sp.name, rep.elapsed_s());
     }
+    if quick && si == 0 {
+      let three: Vec<Value> = sp.docs_core.iter().take(3).cloned().collect();
+      wb.extend(gen_worlds(sp, &three, 3).into_iter().filter(|w| w.docs.len() == 3));
+    }
     if !quick && !sp.kw {
       // 4-document corpora over the first two core shapes
       let two: Vec<Value> = sp.docs_core.iter().take(2).cloned().collect();
       wb.extend(gen_worlds(sp, &two, 4).into_iter().filter(|w| w.docs.len() == 4));
     }
-    bounds.push(json!({"slice": "B-combinators", "schema": sp.name, "doc_shapes": b_shapes.len(), "max_docs": if quick || sp.kw { b_docs } else { 4 }, "doc_shapes_for_4_doc_corpora": 2, "worlds": wb.len(), "trees": tb.len(), "tree_bound": desc}));
-    slices.push(Slice { name: "B", ord: 0, spec: si, trees: prepare(tb, leaves, None), worlds: wb, obligations: false });
+    bounds.push(json!({"slice": "B-combinators", "schema": sp.name, "doc_shapes": b_shapes.len(), "max_docs": if quick { if si == 0 { 3 } else { 2 } } else if sp.kw { 3 } else { 4 }, "doc_shapes_for_3_doc_corpora_quick_S0": 3, "doc_shapes_for_4_doc_corpora": 2, "worlds": wb.len(), "trees": tb.len(), "tree_bound": desc}));
+    slices.push(Slice { name: "B", ord: 1, spec: si, trees: prepare(tb, leaves, None), worlds: wb, obligations: false });
+    // slice N (schema S0): compound children under a counting parent bool
+    if si == 0 {
+      let atoms: Vec<usize> = if quick { core.iter().cloned().filter(|i| *i != 4).collect() } else { core.to_vec() };
+      let four: Vec<Value> = sp.docs_core.iter().take(4).cloned().collect();
+      // N1: parent with the compound and <= 1 leaf child (quick) / <= 2 leaf children (thorough)
+      let tn1 = trees_slice_n(&atoms, 0, if quick { 1 } else { 2 });
+      let wn1 = if quick { gen_worlds(sp, &four, 2) } else { gen_worlds(sp, &sp.docs_core, 2) };
+      bounds.push(json!({"slice": "N-nested-compound-children", "schema": sp.name, "core_leaves": atoms.len(), "leaf_children": if quick { "0..=1" } else { "0..=2" }, "doc_shapes": if quick { 4 } else { sp.docs_core.len() }, "max_docs": 2, "worlds": wn1.len(), "trees": tn1.len()}));
+      slices.push(Slice { name: "N1", ord: 0, spec: si, trees: prepare(tn1, leaves, None), worlds: wn1, obligations: false });
+      // N2: the 3-children parents (compound + 2 leaf children) over the first 4 core leaves
+      let atoms4: Vec<usize> = core.iter().cloned().filter(|i| *i != 4).collect();
+      let tn2 = trees_slice_n(&atoms4, 2, 2);
+      let wn2: Vec<World> = if quick { gen_worlds(sp, &four, 1) } else { gen_worlds(sp, &four, 3).into_iter().filter(|w| w.docs.len() == 3).collect() };
+      bounds.push(json!({"slice": "N-nested-compound-children", "schema": sp.name, "core_leaves": atoms4.len(), "leaf_children": "2", "doc_shapes": 4, "docs": if quick { 1 } else { 3 }, "worlds": wn2.len(), "trees": tn2.len()}));
+      slices.push(Slice { name: "N2", ord: 0, spec: si, trees: prepare(tn2, leaves, None), worlds: wn2, obligations: false });
+    }
     // slice C
     let tc = trees_slice_c(leaves);
     let mut pc = Vec::new();
-    for (fi, f) in fz_opts.iter().enumerate() {
+    let nfz = if quick { 3 } else { fz_opts.len() };
+    for (fi, f) in fz_opts.iter().enumerate().take(nfz) {
       pc.extend(prepare(tc.clone(), leaves, Some((fi, f))));
     }
     let wc: Vec<World> = gen_worlds(sp, &sp.docs_full, 2);
-    bounds.push(json!({"slice": "C-fuzzy", "schema": sp.name, "doc_shapes": sp.docs_full.len(), "max_docs": 2, "worlds": wc.len(), "fuzzy_options": fz_opts.len(), "trees": pc.len()}));
-    slices.push(Slice { name: "C", ord: 1, spec: si, trees: pc, worlds: wc, obligations: false });
+    bounds.push(json!({"slice": "C-fuzzy", "schema": sp.name, "doc_shapes": sp.docs_full.len(), "max_docs": 2, "worlds": wc.len(), "fuzzy_options": nfz, "trees": pc.len()}));
+    slices.push(Slice { name: "C", ord: 2, spec: si, trees: pc, worlds: wc, obligations: false });
   }
   let acc = Acc {
     evals: AtomicU64::new(0),
@@ -1938,7 +2016,7 @@ pub fn run(ctx: &Ctx) -> i32 {
   let per_slice: BTreeMap<String, Value> = acc.per_slice.lock().iter().map(|(k, v)| (k.clone(), json!({"worlds": v.0, "searches": v.1}))).collect();
   let cov = vcore::cov! {
     "distinct_nontrivial" => acc.nontrivial.load(Ordering::Relaxed),
-    "rule" => "a case = (world, query tree[, fuzzy option]); world = schema x sequence of document shapes x every segment layout (composition) x {no deletion, delete one document}; non-trivial = the oracle's hit set is a non-empty proper subset of the live documents and the search agreed. Slice A: all corpora over the full shape alphabet x every leaf alone and under 8 unary wrappers (+2 filter wrappers with a keyword field) + second obligation (term(field, token) for every token the index analyzer emits for a live document). Slice B: core shapes x ALL trees inside tree_bound. Slice C: fuzzy options x positive term leaves and pairs. Oracle: independent boolean evaluator over Analyzer::analyze token streams; cases the documentation does not decide are skipped and counted (undetermined).",
+    "rule" => "a case = (world, query tree[, fuzzy option]); world = schema x sequence of document shapes x every segment layout (composition) x {no deletion, delete one document}; non-trivial = the oracle's hit set is a non-empty proper subset of the live documents and the search agreed. Slice A: all corpora over the full shape alphabet x every leaf alone and under 8 unary wrappers (+2 filter wrappers with a keyword field) + second obligation (term(field, token) for every token the index analyzer emits for a live document). Slice B: core shapes x ALL trees inside tree_bound. Slice N (S0): every parent bool holding one 2-leaf compound child (bool-should with minimum_should_match none/1/2, bool-must, dis_max over every pair of core leaves) in each role plus 0..2 (role x leaf) children x minimum_should_match {none,0,1,2,#should}. Slice C: fuzzy options x positive term leaves and pairs. Oracle: independent boolean evaluator over Analyzer::analyze token streams; cases the documentation does not decide are skipped and counted (undetermined).",
     "bounds" => bounds,
     "worlds" => total_worlds,
     "worlds_completed" => acc.worlds_done.load(Ordering::Relaxed),
@@ -1982,7 +2060,7 @@ fn assumptions() -> Vec<String> {
     "phrases across the values of a multi-valued text field: demanded only when 'inside one value' and 'values concatenated without a gap' agree",
     "regex: demanded only when anchored and unanchored readings agree on the document; wildcard is a full-term match with * and ?; only lower-case patterns",
     "multi_match best_fields / most_fields with operator=and or minimum_should_match>1: demanded only when per-field and blended counting agree; operator=and together with minimum_should_match, counts above the number of terms and percentages that are not whole numbers of terms are not in the alphabet",
-    "bool minimum_should_match never exceeds the number of should clauses; bool filter / constant_score use KeywordEq on a lower-case single-valued keyword only (filter semantics belong to C08)",
+    "bool minimum_should_match is one of {none,0,1,2,#should}; the only value above the number of should clauses is 2 with one clause, read arithmetically (nothing matches); bool filter / constant_score use KeywordEq on a lower-case single-valued keyword only (filter semantics belong to C08)",
     "function_score is used with functions=[weight 2], boost_mode=replace so the score is 2 for every match; min_score 1 keeps, 3 drops, equality is not in the alphabet; script_score uses the finite script '_score + 1'; rank_feature only where every document has a positive value",
     "fuzzy: Levenshtein distance <= max_edits (1,2) on terms of at least min_length characters sharing prefix_length characters; token alphabet has no transposition pairs; fuzzy is combined only with positive term leaves (no negation, phrase or pattern leaves)",
     "expansion caps stay at their defaults and are never reached (<= 7 distinct terms per field)",
